@@ -6,7 +6,7 @@
    exceptional exit satisfies E.  `unchanged h h'` = every cell of every block, the set of live blocks, their
    sizes and all data-member registers are exactly as before (strong guarantee incl. "nothing leaked"). *)
 From Coq Require Import List Arith Lia Bool.
-From C04 Require Import Effects ObjMgr ArrayData Ctor KeyValue Tree Relocator Replace.
+From C04 Require Import Effects ObjMgr ArrayData Ctor KeyValue Tree Relocator Replace PlanWf MultiMap.
 Import ListNotations.
 
 (* ObjectManager::RelocateExec (both overloads of pvRelocateExec, ObjectManager.h:508-535), for every element
@@ -270,7 +270,8 @@ Theorem relocator_commit_or_rollback :
                     (forall j, j < count -> mem (hp s') (dst (next (hp s)) j) = mem (hp s) (src j) /\ mem (hp s') (src j) = Raw) /\
                     (forall l, fst l < next (hp s) -> ~ fp l -> (forall j, j < count -> src j <> l) ->
                                (forall j, j < count -> dst (next (hp s)) j <> l) -> mem (hp s') l = mem (hp s) l) /\
-                    rfields_same (hp s) (hp s'))
+                    rfields_same (hp s) (hp s') /\
+                    (exists h1 h2, allocd (hp s) sizes (length sizes) h1 /\ R h1 h2 /\ forall l, mem (hp s') l = mem h2 l))
        (fun s' => rolled_back (hp s) (hp s')).
 Proof. exact relocator_spec. Qed.
 Print Assumptions relocator_commit_or_rollback.
@@ -309,3 +310,101 @@ Theorem kv_replace_relocate_strong :
        (fun s' => heq (hp s) (hp s')).
 Proof. exact kv_replace_relocate_spec. Qed.
 Print Assumptions kv_replace_relocate_strong.
+
+(* Plan well-formedness.  Every plan that passes the (executable) checker plan_check and whose sources lie in the replaced
+   node satisfies all hypotheses of relocator_commit_or_rollback; so inserting through it is strongly exception safe and
+   puts every item and the new item where the plan says. *)
+Theorem checked_plan_is_strong :
+  forall c sizes segs nk ni ic node arg v s,
+    plan_check sizes segs nk ni ic = true ->
+    (forall j, j < segs_count segs -> fst (fst (seg_at segs j)) = node) ->
+    wf (hp s) -> alive (hp s) node = true -> ic <= bsize (hp s) node ->
+    (forall x, x < ic -> exists w, mem (hp s) (node, x) = Live w) ->
+    (forall x, ic <= x -> x < bsize (hp s) node -> mem (hp s) (node, x) = Raw) ->
+    valid (hp s) arg = true -> mem (hp s) arg = Live v -> fst arg <> node ->
+    wp (run_plan c (sizes, segs, (nk, ni)) arg [node]) s
+       (fun _ s' => alive (hp s') node = false /\
+                    (forall i, i < length sizes -> alive (hp s') (next (hp s) + i) = true) /\
+                    (forall b, b < next (hp s) -> b <> node -> alive (hp s') b = alive (hp s) b) /\
+                    (forall j, j < segs_count segs ->
+                       mem (hp s') (next (hp s) + fst (snd (seg_at segs j)), snd (snd (seg_at segs j))) = mem (hp s) (fst (seg_at segs j))) /\
+                    mem (hp s') (next (hp s) + nk, ni) = Live v)
+       (fun s' => rolled_back (hp s) (hp s')).
+Proof. exact checked_plan_strong. Qed.
+Print Assumptions checked_plan_is_strong.
+
+(* GrowLeafNode (TreeSet.h:413-422) and pvSplitNode + new root (TreeSet.h:462-490, 1303-1314) ALWAYS produce plans that pass
+   the checker (all root leaves of TreeNode<4, 2>: every item count, every insert position) ... *)
+Theorem grow_plans_are_well_formed :
+  forall node ic pos, ic <= 3 -> pos <= ic ->
+    match grow_plan node ic pos with (sizes, segs, (nk, ni)) =>
+      plan_check sizes segs nk ni ic = true /\ (forall j, j < segs_count segs -> fst (fst (seg_at segs j)) = node) end.
+Proof. exact grow_plans_checked. Qed.
+Print Assumptions grow_plans_are_well_formed.
+
+Theorem split_root_plans_are_well_formed :
+  forall node pos, pos <= 4 ->
+    match split_root_plan node 4 pos with (sizes, segs, (nk, ni)) =>
+      plan_check sizes segs nk ni 4 = true /\ (forall j, j < segs_count segs -> fst (fst (seg_at segs j)) = node) end.
+Proof. exact split_root_plans_checked. Qed.
+Print Assumptions split_root_plans_are_well_formed.
+
+(* ... hence a single insertion into a full root leaf (growth or split) is strongly exception safe with no side condition
+   on the plan: on an exception every live node, item and data member is as before *)
+Theorem tree_grow_insert_strong :
+  forall c node ic pos arg v s, ic <= 3 -> pos <= ic -> leaf_pre node ic arg v (hp s) ->
+    wp (run_plan c (grow_plan node ic pos) arg [node]) s
+       (fun _ s' => alive (hp s') node = false /\ (forall b, b < next (hp s) -> b <> node -> alive (hp s') b = alive (hp s) b))
+       (fun s' => rolled_back (hp s) (hp s')).
+Proof. exact tree_grow_insert_spec. Qed.
+Print Assumptions tree_grow_insert_strong.
+
+Theorem tree_split_insert_strong :
+  forall c node pos arg v s, pos <= 4 -> leaf_pre node 4 arg v (hp s) ->
+    wp (run_plan c (split_root_plan node 4 pos) arg [node]) s
+       (fun _ s' => alive (hp s') node = false /\ (forall b, b < next (hp s) -> b <> node -> alive (hp s') b = alive (hp s) b) /\
+                    alive (hp s') (next (hp s)) = true /\ alive (hp s') (S (next (hp s))) = true /\ alive (hp s') (S (S (next (hp s)))) = true)
+       (fun s' => rolled_back (hp s) (hp s')).
+Proof. exact tree_split_insert_spec. Qed.
+Print Assumptions tree_split_insert_strong.
+
+(* BucketLimP4::AddCrt into a block that still has a free slot (details/HashBucketLimP4.h:345-353): the creator runs first,
+   the slot is marked occupied (mShortHashes[count]) only afterwards; any all-or-nothing creator *)
+Theorem bucket_add_inplace_guard :
+  forall creator fp P R s,
+    exec_spec (creator (regs (hp s) rItems, regs (hp s) rCount)) fp P R -> P (hp s) ->
+    wp (bucket_add_inplace creator) s
+       (fun _ s' => regs (hp s') rCount = S (regs (hp s) rCount) /\
+                    (forall r, r <> rCount -> regs (hp s') r = regs (hp s) r) /\
+                    agree (fun l => ~ fp l) (hp s) (hp s'))
+       (fun s' => heq (hp s) (hp s')).
+Proof. exact bucket_add_inplace_spec. Qed.
+Print Assumptions bucket_add_inplace_guard.
+
+(* ... and the ordering "mark the slot, then run the creator" is refuted: the exception leaves a raw cell marked occupied *)
+Theorem bucket_add_inplace_premature_refuted :
+  exists s', bucket_add_inplace_premature (creator_copy (0, 0)) (mkS bucket_demo_heap [true] []) = (Exn, s') /\
+             regs (hp s') rCount = 2 /\ mem (hp s') (1, 1) = Raw.
+Proof. exact bucket_add_inplace_premature_leaves_slot_marked. Qed.
+Print Assumptions bucket_add_inplace_premature_refuted.
+
+(* HashMultiMap::RemoveKey(ConstKeyIterator) (HashMultiMap.h:1100-1117): the value array is moved out, the pair is removed from
+   the underlying hash map (which may throw and is itself strongly safe: kv_replace_strong, the mapped ValueArray being nothrow
+   anyway-assignable); on an exception the catch block moves the array back and everything is exactly as before; on success the
+   pair is gone, the values are destroyed and their storage is released. *)
+Theorem multimap_removekey_rollback :
+  forall (va tmp : loc) (vb n p : nat) (hashmap_remove : M unit) (Pr : heap -> Prop),
+    (forall s, Pr (hp s) ->
+       wp hashmap_remove s
+          (fun _ s' => mem (hp s') va = Raw /\ agree (fun l => l = tmp \/ fst l = vb) (hp s) (hp s') /\ same_regs (hp s) (hp s'))
+          (fun s' => heq (hp s) (hp s'))) ->
+    forall s,
+      valid (hp s) va = true -> valid (hp s) tmp = true -> va <> tmp -> fst va <> vb -> fst tmp <> vb ->
+      mem (hp s) va = Live p -> mem (hp s) tmp = Raw ->
+      alive (hp s) vb = true -> bsize (hp s) vb = n -> (forall j, j < n -> exists v, mem (hp s) (vb, j) = Live v) ->
+      (forall h, heq (hset (hset (hp s) tmp (Live p)) va (Moved p)) h -> Pr h) ->
+      wp (multimap_remove_key va tmp vb n hashmap_remove) s
+         (fun _ s' => mem (hp s') va = Raw /\ mem (hp s') tmp = Raw /\ alive (hp s') vb = false)
+         (fun s' => heq (hp s) (hp s')).
+Proof. exact multimap_remove_key_spec. Qed.
+Print Assumptions multimap_removekey_rollback.
